@@ -210,6 +210,33 @@ def local_comp_events(g1, n):
     return evs
 
 
+def iso_class_events(g1, graphs, n, rng, k):
+    """iso_graph_finder (all relabellings) and iso_equal_check (LC-equivalent to SOME isomorph of g2) from the base graph"""
+    import graphiq.backends.lc_equivalence_check as lc
+    evs = []
+    try:
+        res = lc.iso_graph_finder(g1.copy())
+        out = {"err": "", "graphs": [graph_out(h, n) for h in res]}
+    except Exception as ex:
+        out = {"err": type(ex).__name__, "graphs": []}
+    evs.append({"fn": "iso_graph_finder", "out": out})
+    for g2 in rng.sample(graphs, min(k, len(graphs))):
+        perm = list(range(n))
+        rng.shuffle(perm)
+        h2 = nx.Graph()
+        h2.add_nodes_from(range(n))
+        h2.add_edges_from((perm[a], perm[b]) for a, b in g2.edges())
+        try:
+            ok, h = lc.iso_equal_check(g1.copy(), h2.copy())
+            out = {"err": "", "res": bool(ok), "graph": graph_out(h, n)}
+        except Exception as ex:
+            out = {"err": type(ex).__name__, "res": False, "graph": {"bad": "raised", "n": 0, "edges": []}}
+        evs.append({"fn": "iso_equal_check", "g2": cz.graph_edges1(h2), "out": out, "connected": bool(nx.is_connected(g1)),
+                    # (for any graph LC-equivalent to g1 the solution space has the dimension it has for g1 against itself)
+                    "dim": int(solution_dim(adj_of(g1, n), adj_of(g1, n)))})
+    return evs
+
+
 def orbit_py(g, n):
     """harness-side orbit (only used to CHOOSE which second graphs to feed for n >= 5; TLC recomputes the truth)."""
     from itertools import combinations
@@ -252,6 +279,8 @@ def run(ctx):
                 evs += decide_events(g1, g2, n, rng, full=(not ctx.quick) or ((gi + gj) % 5 == 0))
                 if n >= 2 and ((not ctx.quick) or (gi + 2 * gj) % 7 == 0):
                     evs += lc_state_events(g1, g2, n, rng, 1 if ctx.quick else 2)
+            if 2 <= n <= 4 and ((not ctx.quick) or gi % 3 == 0):
+                evs += iso_class_events(g1, graphs, n, rng, 2 if ctx.quick else 6)
             tid += 1
             traces.append({"tid": tid, "meta": {"n": n, "base": cz.graph_edges1(g1)}, "n": n,
                            "base": cz.graph_edges1(g1), "need_orbit": True, "events": evs})
